@@ -19,6 +19,8 @@ func checkC12(c *Ctx) {
 	c.Rule("C12-R3", "protocol normalisation: SGR value-1 and motion bit cleared; X11 coordinates byte-33 and button byte-32")
 	c.Rule("C12-R4", "release ('m') and motion without a pressed button force 'no button' (|3, &^0x40); the press flag is cleared on release and set only by a non-motion, non-wheel press")
 	c.Rule("C12-R5", "both mouse parsers accept ESC [ and 0x9b as introducer")
+	c.Rule("C12-R6", "the number-scanning state of the SGR parser (value, sign, digit-seen) is reset as a whole between parameters: every field transition that resets one of the accumulators resets all of them")
+	c.Expect("C12-R6", 1)
 	for r, n := range map[string]int{"C12-R1": 9, "C12-R2": 5, "C12-R3": 5, "C12-R4": 4, "C12-R5": 2} {
 		c.Expect(r, n)
 	}
@@ -36,6 +38,7 @@ func checkC12(c *Ctx) {
 		return
 	}
 	c12Table(c, p)
+	c12Accumulators(c, p, sgr)
 	// R2
 	for _, call := range callsIn(bm, func(n string, _ *ssa.CallCommon) bool { return strings.HasSuffix(n, "NewEventMouse") }) {
 		cc := callCommon(call)
@@ -406,4 +409,118 @@ func c12Release(c *Ctx, p *Prog, sgr *ssa.Function) {
 	}
 	c.Check(relOK, "C12-R4", "parseSgrMouse:release-clears-buttons", p.pos(sgr.Pos()), "on 'm' the code is forced to 'no button' (|3, &^0x40)")
 	c.Check(motOK, "C12-R4", "parseSgrMouse:buttonless-motion-clears-buttons", p.pos(sgr.Pos()), "motion without a pressed button is forced to 'no button'")
+}
+
+// c12Accumulators: in a `for i := range b { switch … }` recogniser with a state
+// variable, the per-parameter accumulators are the loop-carried variables that
+// change while the state stays put (digits, sign).  A transition to the next
+// parameter must start from a clean slate; leaving one accumulator out (the
+// sign, say) lets it leak into the next parameter.  Decided as agreement between
+// siblings: on every back edge where the state changes and at least one
+// accumulator is set back to its initial constant, all accumulators are.
+func c12Accumulators(c *Ctx, p *Prog, fn *ssa.Function) {
+	var hdr *ssa.BasicBlock
+	var idx *ssa.Phi
+	for _, b := range fn.Blocks {
+		for _, in := range b.Instrs {
+			if bo, ok := in.(*ssa.BinOp); ok && isRangeIndex(bo) {
+				hdr = b
+				idx, _ = bo.X.(*ssa.Phi)
+			}
+		}
+	}
+	if hdr == nil {
+		c.Undecided("C12-R6", fn.Name()+":accumulators", p.pos(fn.Pos()), "scan loop not found")
+		return
+	}
+	var phis []*ssa.Phi
+	for _, in := range hdr.Instrs {
+		if phi, ok := in.(*ssa.Phi); ok && phi != idx {
+			phis = append(phis, phi)
+		}
+	}
+	// the state variable: int phi with the most distinct constant edges
+	var state *ssa.Phi
+	best := 0
+	for _, phi := range phis {
+		ks := map[int64]bool{}
+		for _, e := range phi.Edges {
+			if k, ok := constInt(e); ok {
+				ks[k] = true
+			}
+		}
+		if len(ks) > best {
+			best, state = len(ks), phi
+		}
+	}
+	if state == nil || best < 3 {
+		c.Undecided("C12-R6", fn.Name()+":accumulators", p.pos(fn.Pos()), "state variable not found")
+		return
+	}
+	entry := -1
+	for i, pr := range hdr.Preds {
+		if !hdr.Dominates(pr) {
+			entry = i
+		}
+	}
+	if entry < 0 {
+		c.Undecided("C12-R6", fn.Name()+":accumulators", p.pos(fn.Pos()), "loop entry edge not found")
+		return
+	}
+	sameConst := func(a, b ssa.Value) bool {
+		ca, ok1 := a.(*ssa.Const)
+		cb, ok2 := b.(*ssa.Const)
+		return ok1 && ok2 && ca.Value != nil && cb.Value != nil && ca.Value.ExactString() == cb.Value.ExactString()
+	}
+	var accs []*ssa.Phi
+	for _, phi := range phis {
+		if phi == state {
+			continue
+		}
+		if _, ok := phi.Edges[entry].(*ssa.Const); !ok {
+			continue
+		}
+		inField := false
+		for i, e := range phi.Edges {
+			if i == entry {
+				continue
+			}
+			if state.Edges[i] == ssa.Value(state) && e != ssa.Value(phi) {
+				inField = true
+			}
+		}
+		if inField {
+			accs = append(accs, phi)
+		}
+	}
+	if len(accs) < 2 {
+		c.Undecided("C12-R6", fn.Name()+":accumulators", p.pos(fn.Pos()), fmt.Sprintf("%d accumulators found, expected value, sign and digit-seen", len(accs)))
+		return
+	}
+	names := []string{}
+	for _, a := range accs {
+		names = append(names, a.Comment)
+	}
+	nTrans, bad := 0, ""
+	for i := range hdr.Preds {
+		if i == entry || state.Edges[i] == ssa.Value(state) {
+			continue
+		}
+		reset, kept := []string{}, []string{}
+		for _, a := range accs {
+			if sameConst(a.Edges[i], a.Edges[entry]) {
+				reset = append(reset, a.Comment)
+			} else {
+				kept = append(kept, a.Comment)
+			}
+		}
+		if len(reset) == 0 {
+			continue // a transition inside the introducer: nothing accumulated yet
+		}
+		nTrans++
+		if len(kept) > 0 {
+			bad += fmt.Sprintf("the transition to state %s (from block %d, %s) resets %v but not %v; ", valName(state.Edges[i]), hdr.Preds[i].Index, p.pos(firstPos(hdr.Preds[i])), reset, kept)
+		}
+	}
+	c.Check(bad == "" && nTrans >= 2, "C12-R6", fn.Name()+":accumulators-reset-together", p.pos(fn.Pos()), fmt.Sprintf("accumulators %v; %d parameter transitions reset them %s", names, nTrans, bad))
 }
